@@ -91,12 +91,35 @@ Proof.
   inversion H; subst. apply setEpSquare_consistent; auto.
 Qed.
 
+Lemma fenCounters_consistent k p s : ConsistentX zk k p -> ConsistentX zk k (fenCounters p s).
+Proof.
+  intro C. unfold fenCounters. cbv zeta.
+  destruct (token (skipSpaces s)) as [tok1 s1].
+  destruct (token (skipSpaces s1)) as [tok2 s2].
+  repeat match goal with
+  | |- ConsistentX _ _ (match ?t with [] => _ | _ :: _ => _ end) => destruct t
+  | |- ConsistentX _ _ (match stoi ?t with Some _ => _ | None => _ end) => destruct (stoi t)
+  | |- ConsistentX _ _ (setFullMoveCounter _ _) => apply set_fullMoveCounter_consistent
+  | |- ConsistentX _ _ (setHalfMoveClock _ _) => apply set_halfMoveClock_consistent
+  end; auto.
+Qed.
+
+Lemma fenFinish_consistent p q : Consistent zk p -> fenFinish zk p = FenOk q -> Consistent zk q.
+Proof.
+  intros C H. unfold fenFinish in H.
+  destruct (negb (Nat.eqb (countPiece p WKING) 1)); [discriminate|].
+  destruct (negb (Nat.eqb (countPiece p BKING) 1)); [discriminate|].
+  cbv zeta in H. destruct (inCheck _); [discriminate|].
+  inversion H; subst. apply fixupEPSquare_consistent; auto.
+Qed.
+
 Theorem readFEN_consistent s p : readFEN zk s = FenOk p -> Consistent zk p.
 Proof.
   unfold readFEN. intro H.
   destruct (readPlacement zk s (emptyPosition zk) 7 0) as [e|[p1 s1]] eqn:E1; [discriminate|].
   assert (C1 : Consistent zk p1).
   { eapply readPlacement_consistent; [apply emptyPosition_consistent | | | exact E1]; lia. }
+  cbv zeta in H.
   destruct (skipSpaces s1) as [|c s2]; [discriminate|].
   set (p2 := setWhiteMove zk p1 (c =? ch_w)) in *.
   assert (C2 : Consistent zk p2) by (apply setWhiteMove_consistent; auto).
@@ -107,22 +130,7 @@ Proof.
     [discriminate|].
   assert (C4 : Consistent zk p4).
   { destruct (skipSpaces s3); [inversion E4; subst; auto|]. eapply readEp_consistent; eauto. }
-  cbv zeta in H.
-  destruct (token (skipSpaces (snd (token (skipSpaces s3))))) as [tok1 s5].
-  destruct (token (skipSpaces s5)) as [tok2 s6].
-  match type of H with context [countPiece ?q WKING] => set (p6 := q) in * end.
-  assert (C6 : Consistent zk p6).
-  { unfold p6, Consistent in *.
-    repeat match goal with
-    | |- ConsistentX _ _ (match ?t with [] => _ | _ :: _ => _ end) => destruct t
-    | |- ConsistentX _ _ (match stoi ?t with Some _ => _ | None => _ end) => destruct (stoi t)
-    | |- ConsistentX _ _ (setFullMoveCounter _ _) => apply set_fullMoveCounter_consistent
-    | |- ConsistentX _ _ (setHalfMoveClock _ _) => apply set_halfMoveClock_consistent
-    end; auto. }
-  destruct (negb (Nat.eqb (countPiece p6 WKING) 1)); [discriminate|].
-  destruct (negb (Nat.eqb (countPiece p6 BKING) 1)); [discriminate|].
-  destruct (inCheck _); [discriminate|].
-  inversion H; subst. apply fixupEPSquare_consistent; auto.
+  eapply fenFinish_consistent; [|exact H]. apply fenCounters_consistent. exact C4.
 Qed.
 
 End Sources.
